@@ -30,7 +30,7 @@ def scenario(shape):
         fs.finish_shutdown()
         mem_height = fs.bp.state.height
         mem_tip = bytes(fs.bp.state.tip)
-        eng.note('deviations: ' + ' | '.join(t for t in fs.sched.trace if t.startswith(('postpone:', 'event:'))))
+        eng.note('deviations: ' + ' | '.join(t for t in fs.sched.trace if t.startswith(('postpone', 'event:'))))
         fs.sched.deviations = 0
         sim.world.durable.preempt = None
         state = sim.open()                                   # restart
@@ -77,6 +77,8 @@ def shapes(tier):
         # shutdown plus one postponed gate (e.g. a worker job still running while the shutdown path flushes)
         dict(base, initial=INITIAL, deviations=2, window=6, script=[('block', payA)]),
     ]
+    # worker jobs also preemptible at every store READ: shutdown while a block is half advanced (ok == False)
+    out.append(dict(base, split_jobs='reads', initial=INITIAL, deviations=1, script=[('block', payA)]))
     # cache pressure: check_cache_size_loop asks for a flush while blocks are being advanced
     for arg in (True, False):
         out.append(dict(base, initial=INITIAL + [cbA], deviations=1, explore_startup=True, script=[],
@@ -87,6 +89,10 @@ def shapes(tier):
             dict(base, initial=INITIAL + [cbA], deviations=2, window=8, script=[('force_reorg', 1)]),
             dict(base, initial=INITIAL, deviations=2, window=8, explore_startup=True, script=[('block', payA), ('block', cbB)]),
             dict(base, initial=INITIAL + [cbA, cbB], deviations=2, window=8, script=[('reorg', 2, [cbC, cbA, payA])]),
+            dict(base, split_jobs='reads', initial=INITIAL, deviations=1, explore_startup=True,
+                 script=[('block', payA), ('block', payAB)]),
+            dict(base, split_jobs='reads', initial=INITIAL + [payA], deviations=1, script=[('reorg', 1, [cbB, payAB])]),
+            dict(base, split_jobs='reads', initial=INITIAL, deviations=2, window=8, script=[('block', payA)]),
         ]
     return out
 
@@ -100,7 +106,8 @@ KERNELS = [
                     'flush_utxo_db', 'flush_backup', 'assert_flushed', 'electrumx/server/history.py:History.flush',
                     'backup'],
            bounds='start of 3..5 blocks, then one new block / a natural reorg of depth 1..2 / a forced reorg; shutdown at '
-                  'every scheduler step (deviation 1); with a second deviation within 6..8 steps: postpone any pending '
+                  'every scheduler step (deviation 1), in one shape (thorough: four) also at every store read of a '
+                  'worker job, i.e. while a block is half advanced; with a second deviation within 6..8 steps: postpone any pending '
                   'gate (including the continuation of a worker job parked at a storage operation) for a full timer '
                   'round; remaining worker threads finish after the task returned',
            outside='preemption finer than one durable storage operation (bytecode level), signals during process '
